@@ -273,7 +273,9 @@ def checkSolve (prop : String) : Rd Verdict := do
     | some k => its.getD (k+1) x
     | none => x
   let borderline := tr.any fun t => (t - o.tol).abs ≤ 1e-6 * o.tol
-  let m := Cycle.solve cyc (fun x => relresF A x b0) o.tol o.maxIter x0
+  -- the model's order is total; the code's test `!(r_norm <= tol)` reads a residual that is not a number as "not below the
+  -- tolerance", i.e. as +infinity
+  let m := Cycle.solve cyc (fun x => let r := relresF A x b0; if r.isNaN then (1.0 / 0.0) else r) o.tol o.maxIter x0
   if !borderline && m.iters != iters && (its.eraseDups.length == its.length) then
     return diff (base ++ "/stop_logic") s!"impl iters={iters} model iters={m.iters} tol={o.tol} hist={showF hist}" feats
   -- converged means: finite and truly below the tolerance
